@@ -28,16 +28,25 @@ impl<'buf, IO: Io> Connection<'_, 'buf, IO> {
         {
             return Err(Error::InvalidRequest);
         }
-        let mut buffer = [0u8; CONTROL_PACKET_LEN];
-        let packet = MqttSerializer::encode(&mut buffer, &disconnect)?;
-        self.session.runtime.require_packet_size(packet.len())?;
         // A cancelled operation may have left a packet half-written: DISCONNECT must not
         // start in the middle of it.
-        let result = match self.finish_in_progress().await {
-            Ok(()) => match write_all(&mut self.io, packet).await {
-                Ok(()) => self.io.flush().await.map_err(Error::Transport),
-                Err(err) => Err(err),
-            },
+        if let Err(err) = self.finish_in_progress().await {
+            self.handle_disconnect();
+            return Err(err);
+        }
+        // Encode into the free tail of the TX arena when it offers more room than the dedicated
+        // control storage, so that a DISCONNECT can carry properties; the dedicated storage
+        // keeps a plain DISCONNECT possible when the arena is full.
+        let mut buffer = [0u8; CONTROL_PACKET_LEN];
+        let scratch = self.session.data.outbound.scratch_space();
+        let packet = if scratch.len() > buffer.len() {
+            MqttSerializer::encode(scratch, &disconnect)?
+        } else {
+            MqttSerializer::encode(&mut buffer, &disconnect)?
+        };
+        self.session.runtime.require_packet_size(packet.len())?;
+        let result = match write_all(&mut self.io, packet).await {
+            Ok(()) => self.io.flush().await.map_err(Error::Transport),
             Err(err) => Err(err),
         };
         // The transport is finished after a DISCONNECT regardless of the write outcome.
